@@ -203,3 +203,61 @@ TARGETS = {
     "codebasin.coverage.__main__:_compute": Coverage("coverage", ("links", "exclude", "dupes", "zerosloc"), quick_n=10, thorough_n=150),
 }
 TARGETS["codebasin.finder:ParserState.get_setmap"].proved = True
+
+
+# ---- an analysis for no platform at all (the quantifier says 0..4): every counted line lands in the empty set ----------
+from native import recorded as _R      # noqa: E402
+
+
+class NoPlatforms:
+    proved = False
+    role = "bounded check: analysis files without platforms, codebasin and cbi-tree as subprocesses"
+
+    def bound(self, tier):
+        return "2 analysis files (no [platform] table; an empty one) x 2 front ends"
+
+    def inputs(self, tier, seed):
+        yield {"toml": "[codebase]\nexclude = []\n"}
+        yield {"toml": "[codebase]\nexclude = []\n\n[platform]\n"}
+
+    def nontrivial(self, inp):
+        return True
+
+    def check(self, inp):
+        import re
+        with _R.tree({"a.c": "int a;\nint b;\n", "sub/h.h": "int h;\n/* c */\nint g;\n", "analysis.toml": inp["toml"]}) as root:
+            rc, out, err = cli.run("codebasin", ["-R", "summary", os.path.join(root, "analysis.toml")], root)
+            if rc != 0:
+                return {"expected": "codebasin succeeds: every counted line in the empty platform set, Total SLOC 4", "observed": (err or out)[-200:],
+                        "klass": "reports:no-platforms"}
+            tot = re.search(r"Total SLOC: (\d+)", out)
+            if not tot or tot.group(1) != "4":
+                return {"expected": "Total SLOC: 4", "observed": out[-200:], "klass": "reports:no-platforms"}
+            rc, out, err = cli.run("codebasin.tree", [os.path.join(root, "analysis.toml")], root)
+            if rc != 0:
+                return {"expected": "cbi-tree succeeds", "observed": (err or out)[-200:], "klass": "reports:no-platforms"}
+        return None
+
+
+TARGETS["codebasin.__main__:_main"] = NoPlatforms()
+
+
+# ---- recorded findings reported by defect hunting -----------------------------------------------------------------------------
+def _x_fixed_form():
+    with _R.tree({"main.c": "int m;\n", "legacy.f": "      program p\n      end\n"}) as root:
+        used = _R.used_lines(root, [{"file": os.path.join(root, "main.c"), "defines": [], "include_paths": [], "include_files": []}])
+    return None if "legacy.f" in used else ("legacy.f is a code-base file (recognised extension): its lines are counted, unused", used)
+
+
+def _x_include_beside_link():
+    files = {"dirA/real.c": '#include "h.h"\nint real;\n', "dirA/h.h": "int from_A;\n", "dirB/h.h": "int from_B;\n"}
+    with _R.tree(files) as root:
+        os.symlink("../dirA/real.c", os.path.join(root, "dirB/link.c"))
+        used = _R.used_lines(root, [{"file": os.path.join(root, "dirB/link.c"), "defines": [], "include_paths": [], "include_files": []}])
+    return None if used.get("dirB/h.h") == [1] and not used.get("dirA/h.h") else (
+        "dirB/h.h is read: gcc -E dirB/link.c looks beside the path it was given", used)
+
+
+TARGETS["codebasin.finder:find#recorded-findings"] = _R.Exhibits([
+    ("reports:fixed-form-fortran-file-in-the-code-base-aborts-the-analysis", "an unused legacy.f next to main.c", _x_fixed_form),
+    ("reports:quoted-include-of-a-file-compiled-through-a-link", "dirB/link.c -> ../dirA/real.c with h.h in both directories", _x_include_beside_link)])
